@@ -75,3 +75,14 @@ pub trait FromPrimitive: Sized {
     spec fn from_u64_spec(n: u64) -> Option<Self>;
     fn from_u64(n: u64) -> (r: Option<Self>) ensures r == Self::from_u64_spec(n);
 }
+
+// f64 as a weight type (num::ToPrimitive for f64: to_f64 is the identity)
+pub uninterp spec fn f64_to_u64_spec(x: f64) -> Option<u64>;
+impl ToPrimitive for f64 {
+    open spec fn to_u64_spec(self) -> Option<u64> { f64_to_u64_spec(self) }
+    #[verifier::external_body]
+    fn to_u64(&self) -> (r: Option<u64>) { unimplemented!() }
+    open spec fn to_f64_spec(self) -> Option<f64> { Some(self) }
+    #[verifier::external_body]
+    fn to_f64(&self) -> (r: Option<f64>) { Some(*self) }
+}
